@@ -190,46 +190,32 @@ pub(crate) fn write_entry_flat(buf: &mut Vec<u8>, entry: Entry<'_>) -> JEntry {
 }
 
 // ---- experiments
-#[kani::proof]
-#[kani::unwind(40)]
-#[kani::stub(crate::parser::parse_value, no_text_e)]
-#[kani::stub(crate::builder::write_entry, write_entry_flat)]
-fn kx_s1() {
-    check_delete_by_index(&[sc_num2().it, sc_float9().it, sc_str1().it, sc_null().it]);
+fn del_case(a: &[It; 4], doc: &Buf, k: i32) {
+    let mut buf = out_buf();
+    let r = delete_by_index(doc.as_slice(), k, &mut buf);
+    assert!(r.is_ok());
+    let eff = if k < 0 { 4 + k } else { k };
+    let mut want = L::new();
+    let mut i = 0;
+    while i < 4 { if i as i32 != eff { want.push(a[i]); } i += 1; }
+    assert!(appended(&buf, &layout_array(want.items())));
 }
 #[kani::proof]
 #[kani::unwind(40)]
 #[kani::stub(crate::parser::parse_value, no_text_e)]
-#[kani::stub(crate::builder::write_entry, write_entry_flat)]
-fn kx_s2() {
-    check_delete_by_index(&[sc_w2().it, sc_float9().it, sc_str1().it, sc_w0().it]);
-}
-#[kani::proof]
-#[kani::unwind(40)]
-#[kani::stub(crate::parser::parse_value, no_text_e)]
-fn kx_s3() {
+fn kx_p1() {
     let a = [sc_num2().it, sc_float9().it, sc_str1().it, sc_null().it];
     let doc = layout_array(&a);
-    let index: i32 = kani::any();
-    let mut k = -6;
-    while k <= 6 {
-        if index == k {
-            let mut buf = out_buf();
-            let r = delete_by_index(doc.as_slice(), k, &mut buf);
-            assert!(r.is_ok());
-            let eff = if k < 0 { 4 + k } else { k };
-            let mut want = L::new();
-            let mut i = 0;
-            while i < 4 { if i as i32 != eff { want.push(a[i]); } i += 1; }
-            assert!(appended(&buf, &layout_array(want.items())));
-        }
-        k += 1;
-    }
+    del_case(&a, &doc, 1);
 }
 #[kani::proof]
-#[kani::unwind(24)]
+#[kani::unwind(40)]
 #[kani::stub(crate::parser::parse_value, no_text_e)]
-#[kani::stub(crate::builder::write_entry, write_entry_flat)]
-fn kx_s4() {
-    check_delete_by_index(&[sc_num2().it, sc_null().it]);
+fn kx_p3() {
+    let a = [sc_num2().it, sc_float9().it, sc_str1().it, sc_null().it];
+    let doc = layout_array(&a);
+    let sel: u8 = kani::any();
+    if sel == 0 { del_case(&a, &doc, 1); }
+    else if sel == 1 { del_case(&a, &doc, -1); }
+    else { del_case(&a, &doc, 5); }
 }
